@@ -19,6 +19,7 @@ import (
 	"encoding/json"
 	"errors"
 	"fmt"
+	"math"
 	"strconv"
 	"strings"
 )
@@ -353,6 +354,11 @@ func buildExpressionEx(input map[string]interface{}, depth int) (string, bool, e
 
 				return strconv.Quote(valueType), true, nil
 			case float64:
+				if math.Abs(valueType) >= 1<<63 {
+					// too large for an integer literal, keep it a float literal
+
+					return strconv.FormatFloat(valueType, 'e', -1, 64), true, nil
+				}
 
 				return strconv.FormatFloat(valueType, 'f', -1, 64), true, nil
 			case bool:
